@@ -315,6 +315,8 @@ def run_property(prop, tier="quick", repo="/repo", seed=0, update_baseline=False
         "wall_s": round(wall, 2),
         "violations": violations,
     }
+    if "bounded_detail" in extra:
+        ev["coverage"]["bounded_checks"]["detail"] = extra.pop("bounded_detail")
     if "ttlv_samples" in extra:
         extra["ttlv_samples"] = extra["ttlv_samples"][:8]
     ev["coverage"].update(extra)
